@@ -275,8 +275,9 @@ class SubmitSm(Trackable, SmppMessage):
                 prefix = '+'
             else:
                 # Unit is quarter-hour (15 minutes)
-                offset_str: str = f'{int(floor(offset.seconds / (60 * 15))):02d}'
-                prefix: str = '-' if offset.days < 0 else '+'
+                offset_seconds: int = offset.days * 86400 + offset.seconds
+                offset_str: str = f'{int(floor(abs(offset_seconds) / (60 * 15))):02d}'
+                prefix: str = '-' if offset_seconds < 0 else '+'
             return time_object.strftime('%y%m%d%H%M%S') + tenth_second + offset_str + prefix
         if isinstance(time_object, timedelta):
             # timedelta is converted to relative validity
@@ -320,10 +321,13 @@ class SubmitSm(Trackable, SmppMessage):
             return timedelta(days=total_days, seconds=total_seconds)
         # Absolute validity, convert to datetime
         tenth_second: int = int(smpp_time[12:13])
-        offset_str: str = smpp_time[15:16] + smpp_time[13:15] + '00'
-        offset: FixedOffset = FixedOffset.from_timezone(offset_str)
+        # nn is the UTC offset in quarter hours, p its sign
+        offset_minutes: int = int(smpp_time[13:15]) * 15
+        if smpp_time[15:16] == '-':
+            offset_minutes = -offset_minutes
+        offset: FixedOffset = FixedOffset(offset_minutes, 'UTC' + smpp_time[15:16] + smpp_time[13:15])
         return datetime(
-            year=year,
+            year=2000 + year,
             month=month,
             day=day,
             hour=hour,
